@@ -66,6 +66,8 @@ class Controller:
 
         visit_code = sys.modules['prettyprinter.prettyprinter']._run_pretty.__code__
         L = sys.modules['prettyprinter.layout']
+        import os as _os
+        pkg_dir = _os.path.dirname(L.__file__) + _os.sep
         layout_codes = {f.__code__ for f in (L.best_layout, L.fast_fitting_predicate, L.smart_fitting_predicate)}
 
         def glob(frame, event, arg):
@@ -75,6 +77,8 @@ class Controller:
                 return local if frame.f_code is visit_code else None
             if self.region == 'layout':
                 return local if frame.f_code in layout_codes else None
+            if self.region == 'all':
+                return local if frame.f_code.co_filename.startswith(pkg_dir) else None
             if frame.f_code is code or (
                     frame.f_code.co_name == 'decorator' and frame.f_code.co_filename == rp_file):
                 return local
@@ -178,6 +182,29 @@ def run_layout(nthreads, schedule, widths=None):
     widths = widths or [40] * nthreads
     ref = [pformat(v, width=w) for v, w in zip(vals, widths)]
     ctl = Controller(nthreads, region='layout')
+    fns = [(lambda v=v, w=w: pformat(v, width=w)) for v, w in zip(vals, widths)]
+    results, used = ctl.run(fns, schedule)
+    return results, ref
+
+
+def mixed_values(nthreads):
+    """strings that get split, comments, subclass instances, calls, shared sub-objects"""
+    from prettyprinter import comment, trailing_comment
+    shared = ['shared words ' * 6, {'k': (1, 2.5, None)}]
+    vals = []
+    for i in range(nthreads):
+        vals.append([comment({'text %d' % i: 'lorem ipsum dolor sit amet ' * (3 + i), 'b': b'bytes \x00' * 9}, 'note %d' % i),
+                     trailing_comment([i, shared, frozenset([i])], 'tail %d' % i), shared, ('x' * (20 + 7 * i),) * 3])
+    return vals
+
+
+def run_all_lines(nthreads, schedule, widths=None):
+    """threads print mixed values, gated on EVERY line executed inside the package"""
+    from prettyprinter import pformat
+    vals = mixed_values(nthreads)
+    widths = widths or [40] * nthreads
+    ref = [pformat(v, width=w) for v, w in zip(vals, widths)]
+    ctl = Controller(nthreads, region='all')
     fns = [(lambda v=v, w=w: pformat(v, width=w)) for v, w in zip(vals, widths)]
     results, used = ctl.run(fns, schedule)
     return results, ref
